@@ -649,6 +649,17 @@ class Cluster:
             if job.blocked_by and job.state in (JobState.SUBMITTED, JobState.DONE):
                 job.blocked_by.clear()
 
+        # Reject out-of-date copies before either file is written.
+        current = self._get_config_version()
+        if self._config.version != current:
+            raise ConfigVersionMismatch(
+                f"expected={current} actual={self._config.version} update_job_status"
+            )
+        current = self._get_job_status_version()
+        if self._job_status.version != current:
+            raise JobStatusVersionMismatch(
+                f"expected={current} actual={self._job_status.version} update_job_status"
+            )
         self._serialize("update_job_status")
         self._serialize_jobs("update_job_status")
 
